@@ -211,6 +211,9 @@ class World:
             if d1 != d2 and kind in ("ser_ds", "ser_view") and vals[0][0] == "ok" and vals[1][0] == "ok":
                 d1, d2 = reads.meaning_digest(kind, arg, vals[0][1]), reads.meaning_digest(kind, arg, vals[1][1])
             e["v1"], e["v2"] = d1, d2
+            xv = reads.expected(self, kind, arg, tgt)
+            if xv is not None:
+                e["xv"] = reads.stable_digest(kind, arg, ("ok", xv))
             if vals[0][0] == "raise":
                 e["raised"] = vals[0][1]
         elif op == "open":
